@@ -106,6 +106,22 @@ function genSem(rng, params) {
   const p = [A("prog"), decls, []];
   const kind = rng.below(3);
   let expr, text, types;
+  if (rng.chance(1, 10)) {
+    // Exclude over Map / Set whose element, key or value type is RECURSIVE: the materialisation introduces helper definitions
+    // for the recursion, and the clause `Set<Tree> & Not<Set<Tree>>` is empty only for who can see those definitions
+    const tree = [A("alias"), "Tree", [], [A("obj"), [["children", A("false"), [A("array"), [A("ref"), "Tree"]]]], A("none")]];
+    const ds = [...decls.filter((d) => d[1] !== "Tree"), tree];
+    const el = rng.pick([[A("ref"), "Tree"], [A("array"), [A("ref"), "Tree"]], [A("obj"), [["t", A("false"), [A("ref"), "Tree"]]], A("none")]]);
+    const cont = rng.chance(1, 2) ? [A("bi"), "Set", el] : [A("bi"), "Map", A("string"), el];
+    const other = rng.pick([A("string"), A("number"), [A("array"), A("string")]]);
+    const a = [A("union"), cont, other];
+    const wider = head(cont) === "bi" && cont[1] === "Set" ? [A("bi"), "Set", [A("union"), el, A("string")]] : [A("bi"), "Map", A("string"), [A("union"), el, A("string")]];
+    const b = rng.pick([cont, cont, wider, other]);
+    const p2 = [A("prog"), ds, []];
+    const vals = semValues(rng, p2, [a, cont, other, el], Number(params[0] || 10));
+    const src = ds.map(tsOfDecl).join("\n") + `\nparse.buildParsers<{ R: Exclude<${tsOf(a)}, ${tsOf(b)}> }>();\n`;
+    return [A("sem"), A(String(counter++)), [A("prog"), ds, [["R", [A("exclude"), a, b]]]], [["entry.ts", src]], vals.map(encVal)];
+  }
   if (kind === 0) { // Exclude<A, B>: A a union, B one of its members / a widening / a literal subset / unrelated
     // (sometimes a tuple whose rest is `unknown` / `any`: the `any[]` shortcut of the materialisation must keep the prefix)
     const anyRest = () => [A("tuple"), Array.from({ length: 1 + rng.below(2) }, () => genLeaf(rng)), A(rng.pick(["unknown", "any"]))];
